@@ -1,33 +1,33 @@
-(* L4 model: gomini/reflecttools/reflect.go (IsNil, Map, Any, ZipReduce) over Go values as reflect sees them.
+(* L4 model: gomini/reflecttools/reflect.go (IsNil, Map, valueOf, Any, ZipReduce) over Go values as reflect sees them.
    No proofs in this file (so that the model still evaluates when a proof breaks).
 
-   A [gval] is the dynamic value held by an [any]: what [reflect.ValueOf(x)] shows, one level at a time.
-   Interfaces are always unwrapped ([Value.Interface()] of an interface-typed field/element yields the
-   dynamic value, or the nil interface), so there is no "interface" constructor, only [GNil].
+   A [gval] is a Go value together with as much of its static type as reflecttools can observe.
 
-     GNil            the nil interface ([x == nil]; also what [Field(i).Interface()] returns for a nil
-                     interface-typed field)
+     GNil            the nil interface: [x == nil] at top level; a nil interface-typed field / element / map value
+     GIface v        an interface-typed field / element / map value holding the dynamic value v (v is not GNil and not
+                     itself a GIface).  Never at top level: [reflect.ValueOf(x)] and [Value.Interface()] unwrap it
+                     ([unwrap]); [Set] into such a slot wraps again ([store]).
      GNilPtr         a typed nil pointer, of any pointee type            (Kind Ptr, IsNil)
      GStructPtr fs   a non-nil pointer to a struct with exported fields fs   (Kind Ptr, Elem Kind Struct)
      GPtr v          a non-nil pointer to a NON-struct value v (pointer-to-int, pointer-to-pointer,
-                     pointer-to-slice, ...)                               (Kind Ptr, Elem Kind = kind of v)
+                     pointer-to-slice, pointer-to-interface ...)          (Kind Ptr, Elem Kind = kind of v)
      GStruct fs      a struct passed by value                            (Kind Struct)
      GSlice n es     a slice; n = true for the nil slice (then es = [])  (Kind Slice; NOT IsNil for reflecttools)
      GMap n en       a map; n = true for the nil map (then en = []); entries have distinct keys; Go's
                      iteration order is random, the list order stands for one such order  (Kind Map)
-     GScalar k n     any other kind k (0 = int, 1 = string, ...) with content n (Kind k)
+     GScalar k n     any other kind k (0 = int, 1 = string, ...) with content n (Kind k); content 0 is the zero value
 
-   Types are not modelled: [reflect.Value.Set] panics when the function returns a value that is not
-   assignable to the slot; the model (and the property: "we can only Map back to the same types") is
-   about type-preserving functions.  What IS modelled of [Set]: [reflect.ValueOf(nil)] is the zero Value,
-   on which [Set] panics and which makes [SetMapIndex] DELETE the key.
-   Pointers to interfaces are excluded (their Elem Kind is Interface, which gval cannot express).
+   Static types are modelled only as far as [valueOf(b, typ)] needs them: whether a slot is interface-typed
+   (GNil / GIface) and what [reflect.Zero] of the slot's type looks like ([zero_of], read off the old content).
+   [reflect.Value.Set] still panics when the function returns a value that is not assignable to the slot; that is
+   outside the model (and outside the property: "we can only Map back to the same types").  The model has no panics.
    Fields are assumed exported ([Interface()] panics otherwise); that is the property's domain. *)
 From Coq Require Import List NArith ZArith Bool.
 Import ListNotations.
 
 Inductive gval : Type :=
 | GNil
+| GIface (v : gval)
 | GNilPtr
 | GStructPtr (fields : list gval)
 | GPtr (v : gval)
@@ -36,12 +36,16 @@ Inductive gval : Type :=
 | GMap (isnil : bool) (entries : list (N * gval))
 | GScalar (k : N) (n : Z).
 
+(* Value.Interface() of a field / element / map value: the dynamic value, or the nil interface *)
+Definition unwrap (s : gval) : gval := match s with GIface v => v | _ => s end.
+
 (* reflect.Kind, as far as reflect.go distinguishes kinds *)
-Inductive kind := KInvalid | KPtr | KStruct | KSlice | KMap | KOther (k : N).
+Inductive kind := KInvalid | KInterface | KPtr | KStruct | KSlice | KMap | KOther (k : N).
 
 Definition kind_of (x : gval) : kind :=
   match x with
-  | GNil => KInvalid
+  | GNil => KInvalid                          (* reflect.ValueOf(nil) *)
+  | GIface _ => KInterface                    (* only as a pointee *)
   | GNilPtr | GStructPtr _ | GPtr _ => KPtr
   | GStruct _ => KStruct
   | GSlice _ _ => KSlice
@@ -53,18 +57,19 @@ Definition kind_of (x : gval) : kind :=
 Definition elem_kind (x : gval) : kind :=
   match x with
   | GStructPtr _ => KStruct
+  | GPtr GNil => KInterface                   (* pointer to a nil interface *)
   | GPtr v => kind_of v
   | _ => KInvalid
   end.
 
 Definition kind_eqb (a b : kind) : bool :=
   match a, b with
-  | KInvalid, KInvalid | KPtr, KPtr | KStruct, KStruct | KSlice, KSlice | KMap, KMap => true
+  | KInvalid, KInvalid | KInterface, KInterface | KPtr, KPtr | KStruct, KStruct | KSlice, KSlice | KMap, KMap => true
   | KOther j, KOther k => N.eqb j k
   | _, _ => false
   end.
 
-(* reflect.go:134-143   func IsNil(x any) bool
+(* reflect.go:149-158   func IsNil(x any) bool
      if x == nil { return true }
      v := reflect.ValueOf(x); if !v.IsValid() { return true }         (unreachable: x != nil)
      return v.Kind() == reflect.Ptr && v.IsNil()
@@ -78,62 +83,77 @@ Definition is_nil (x : gval) : bool :=
 (* ---------------------------------------------------------------------------------------------- *)
 (* Map                                                                                             *)
 
-(* outcome of Map: a value, or the run-time panic "reflect: call of reflect.Value.Set on zero Value" *)
-Inductive mres := MRet (v : gval) | MPanic.
-
-(* reflect.go:23-27 / 32-36   the loop shared by the struct and the slice case
-     for i := 0; i < n; i++ { a := v.(Field|Index)(i).Interface(); b := f(a); r.(Field|Index)(i).Set(reflect.ValueOf(b)) }
-   [reflect.ValueOf(b)] is the zero Value exactly when b is the nil interface, and then [Set] panics
-   (after f has been called on a).  Result: the new slots (None = panicked) and the call log. *)
-Fixpoint map_loop (f : gval -> gval) (l : list gval) : option (list gval) * list gval :=
-  match l with
-  | [] => (Some [], [])
-  | a :: l' =>
-      let b := f a in
-      match b with
-      | GNil => (None, [a])
-      | _ => let (r, log) := map_loop f l' in (option_map (cons b) r, a :: log)
-      end
+(* reflect.Zero(typ) of the static type of a slot, read off the slot's current content *)
+Fixpoint zero_of (s : gval) : gval :=
+  match s with
+  | GNil | GIface _ => GNil
+  | GNilPtr | GStructPtr _ | GPtr _ => GNilPtr
+  | GStruct fs => GStruct (map zero_of fs)
+  | GSlice _ _ => GSlice true []
+  | GMap _ _ => GMap true []
+  | GScalar k _ => GScalar k 0
   end.
 
-(* reflect.go:39-44   r := reflect.MakeMap(t); for _, k := range v.MapKeys() { a := v.MapIndex(k).Interface(); b := f(a); r.SetMapIndex(k, reflect.ValueOf(b)) }
-   [SetMapIndex(k, zero Value)] deletes k from r; keys are distinct and r starts empty, so the entry is
-   simply not there.  No panic is possible. *)
+(* reflect.go:58-63 and the Set / SetMapIndex that follows:
+     func valueOf(b any, typ reflect.Type) reflect.Value { if b == nil { return reflect.Zero(typ) }; return reflect.ValueOf(b) }
+   an untyped nil result becomes the zero value of the slot's type; any other result is stored, converted to the
+   slot's interface type when the slot is interface-typed.  [slot] is the old content (it carries the static type). *)
+Definition store (slot b : gval) : gval :=
+  match b with
+  | GNil => zero_of slot
+  | _ => match slot with GNil | GIface _ => GIface b | _ => b end
+  end.
+
+(* reflect.go:23-27 / 35-39   the loop shared by the struct and the slice case
+     for i := 0; i < n; i++ { a := v.(Field|Index)(i).Interface(); b := f(a); r.(Field|Index)(i).Set(valueOf(b, typ)) }
+   Result: the new slots and the call log. *)
+Fixpoint map_loop (f : gval -> gval) (l : list gval) : list gval * list gval :=
+  match l with
+  | [] => ([], [])
+  | s :: l' =>
+      let a := unwrap s in
+      let b := f a in
+      let (r, log) := map_loop f l' in (store s b :: r, a :: log)
+  end.
+
+(* reflect.go:45-50   r := reflect.MakeMap(t); for _, k := range v.MapKeys() { a := v.MapIndex(k).Interface(); b := f(a); r.SetMapIndex(k, valueOf(b, t.Elem())) }
+   valueOf never yields the zero Value, so no key is deleted. *)
 Fixpoint map_entries (f : gval -> gval) (l : list (N * gval)) : list (N * gval) * list gval :=
   match l with
   | [] => ([], [])
-  | (k, a) :: l' =>
+  | (k, s) :: l' =>
+      let a := unwrap s in
       let b := f a in
-      let (r, log) := map_entries f l' in
-      (match b with GNil => r | _ => (k, b) :: r end, a :: log)
+      let (r, log) := map_entries f l' in ((k, store s b) :: r, a :: log)
   end.
 
-(* reflect.go:14-48   func Map(x any, f func(a any) any) any *)
-Definition rmap (f : gval -> gval) (x : gval) : mres * list gval :=
-  if is_nil x then (MRet x, [])                           (* :15-17  if IsNil(x) { return x } *)
+(* reflect.go:14-54   func Map(x any, f func(a any) any) any *)
+Definition rmap (f : gval -> gval) (x : gval) : gval * list gval :=
+  if is_nil x then (x, [])                                (* :15-17  if IsNil(x) { return x } *)
   else match x with                                       (* :19     switch v.Kind() *)
   | GStructPtr fs =>                                      (* :20-29  case Ptr, Elem Kind Struct: r := reflect.New(T) *)
-      let (r, log) := map_loop f fs in
-      (match r with Some fs' => MRet (GStructPtr fs') | None => MPanic end, log)
-  | GSlice _ es =>                                        (* :30-37  case Slice: r := reflect.MakeSlice(t, Len, Len) -- never nil *)
-      let (r, log) := map_loop f es in
-      (match r with Some es' => MRet (GSlice false es') | None => MPanic end, log)
-  | GMap _ en =>                                          (* :38-45  case Map: r := reflect.MakeMap(t) -- never nil *)
-      let (r, log) := map_entries f en in (MRet (GMap false r), log)
-  | _ => (MRet x, [])                                     (* :47     return x  (Ptr to non-struct falls out of the switch; other kinds) *)
+      let (r, log) := map_loop f fs in (GStructPtr r, log)
+  | GSlice true _ => (x, [])                              (* :31-33  if v.IsNil() { return x } *)
+  | GSlice false es =>                                    (* :34-40  r := reflect.MakeSlice(t, Len, Len) *)
+      let (r, log) := map_loop f es in (GSlice false r, log)
+  | GMap true _ => (x, [])                                (* :42-44  if v.IsNil() { return x } *)
+  | GMap false en =>                                      (* :45-51  r := reflect.MakeMap(t) *)
+      let (r, log) := map_entries f en in (GMap false r, log)
+  | _ => (x, [])                                          (* :53     return x  (Ptr to non-struct falls out of the switch; other kinds) *)
   end.
 
 (* ---------------------------------------------------------------------------------------------- *)
 (* Any                                                                                             *)
 
-(* reflect.go:62-67 / 71-76   for i ... { a := ...Interface(); if pred(a) { return true } }; return false *)
+(* reflect.go:77-82 / 86-91   for i ... { a := ...Interface(); if pred(a) { return true } }; return false *)
 Fixpoint any_loop (p : gval -> bool) (l : list gval) : bool * list gval :=
   match l with
   | [] => (false, [])
-  | a :: l' => if p a then (true, [a]) else let (r, log) := any_loop p l' in (r, a :: log)
+  | s :: l' => let a := unwrap s in
+               if p a then (true, [a]) else let (r, log) := any_loop p l' in (r, a :: log)
   end.
 
-(* reflect.go:54-80   func Any(x any, pred func(a any) bool) bool *)
+(* reflect.go:69-95   func Any(x any, pred func(a any) bool) bool *)
 Definition rany (p : gval -> bool) (x : gval) : bool * list gval :=
   if is_nil x then (false, [])                            (* :55-57 *)
   else match x with
@@ -149,91 +169,105 @@ Section Zip.
 Context {B : Type}.
 Variables (zero : B) (eqb_zero : B -> bool) (f : gval -> gval -> B -> B).
 
-(* reflect.go:111-118 / 123-130   b := innit; for i ... { b = f(x_i, y_i, b); if b == zero { return zero } }; return b
+(* reflect.go:124-131 / 137-144   b := innit; for i ... { b = f(x_i, y_i, b); if b == zero { return zero } }; return b
    (the caller has already checked that the two lists have the same length) *)
 Fixpoint zip_loop (xs ys : list gval) (b : B) : B * list (gval * gval) :=
   match xs, ys with
-  | x :: xs', y :: ys' =>
+  | sx :: xs', sy :: ys' =>
+      let x := unwrap sx in
+      let y := unwrap sy in
       let b' := f x y b in
       if eqb_zero b' then (zero, [(x, y)])
       else let (r, log) := zip_loop xs' ys' b' in (r, (x, y) :: log)
   | _, _ => (b, [])
   end.
 
-(* reflect.go:84-133   func ZipReduce[B comparable](x, y any, innit B, f func(x, y any, acc B) B) B *)
+(* reflect.go:99-147   func ZipReduce[B comparable](x, y any, innit B, f func(x, y any, acc B) B) B *)
 Definition zipreduce (init : B) (x y : gval) : B * list (gval * gval) :=
-  if is_nil x then                                         (* :86-91 *)
+  if is_nil x then                                         (* :101-106 *)
     (if is_nil y then (init, []) else (zero, []))
-  else if is_nil y then (zero, [])                         (* :92-94 *)
-  else if negb (kind_eqb (kind_of x) (kind_of y)) then (zero, [])   (* :97-99 *)
-  else match kind_of x with                                (* :100 switch rx.Kind() *)
+  else if is_nil y then (zero, [])                         (* :107-109 *)
+  else if negb (kind_eqb (kind_of x) (kind_of y)) then (zero, [])   (* :112-114 *)
+  else match kind_of x with                                (* :115 switch rx.Kind() *)
   | KPtr =>
-      if negb (kind_eqb (elem_kind x) (elem_kind y)) then (zero, [])   (* :102-104 *)
+      if negb (kind_eqb (elem_kind x) (elem_kind y)) then (zero, [])   (* :117-119 *)
       else match x, y with
-      | GStructPtr fx, GStructPtr fy =>                    (* :105 Elem Kind Struct *)
-          if negb (Nat.eqb (length fx) (length fy)) then (zero, [])    (* :106-108 NumField *)
+      | GStructPtr fx, GStructPtr fy =>                    (* :120 Elem Kind Struct *)
+          if negb (Nat.eqb (length fx) (length fy)) then (zero, [])    (* :121-123 NumField *)
           else zip_loop fx fy init
-      | _, _ => (zero, [])                                 (* falls out of the switch: :132 return zero *)
+      | _, _ => (zero, [])                                 (* falls out of the switch: :146 return zero *)
       end
   | KSlice =>
       match x, y with
       | GSlice _ ex, GSlice _ ey =>
-          if negb (Nat.eqb (length ex) (length ey)) then (zero, [])    (* :120-122 *)
+          if negb (Nat.eqb (length ex) (length ey)) then (zero, [])    (* :135-137 *)
           else zip_loop ex ey init
       | _, _ => (zero, [])
       end
-  | _ => (zero, [])                                        (* :132  Map (!), Struct by value, other kinds *)
+  | _ => (zero, [])                                        (* :146  Map (!), Struct by value, other kinds *)
   end.
 End Zip.
 
 (* ---------------------------------------------------------------------------------------------- *)
 (* Specification vocabulary (plain list functions, used by the theorem statements)                 *)
 
-(* the fields / elements that Any and ZipReduce look at *)
+(* the fields / elements that Any and ZipReduce look at, as handed to the predicate / function *)
 Definition children (x : gval) : list gval :=
   match x with
-  | GStructPtr fs => fs
-  | GSlice _ es => es
+  | GStructPtr fs => map unwrap fs
+  | GSlice _ es => map unwrap es
   | _ => []
   end.
 
-(* the fields / elements / map values that Map looks at *)
-Definition mchildren (x : gval) : list gval :=
+(* the slots (fields / elements / map values, with their static interface wrapping) that Map rebuilds;
+   a nil slice and a nil map have none and are returned as they are *)
+Definition mslots (x : gval) : list gval :=
   match x with
   | GStructPtr fs => fs
-  | GSlice _ es => es
-  | GMap _ en => map snd en
+  | GSlice false es => es
+  | GMap false en => map snd en
   | _ => []
   end.
 
-Definition mkeys (x : gval) : list N :=
-  match x with GMap _ en => map fst en | _ => [] end.
+(* what Map hands to the function *)
+Definition mchildren (x : gval) : list gval := map unwrap (mslots x).
 
-(* the two argument lists ZipReduce folds over, when the shapes match *)
+Definition mkeys (x : gval) : list N :=
+  match x with GMap false en => map fst en | _ => [] end.
+
+(* nil-ness of a slice / map (false for everything else) *)
+Definition container_nil (x : gval) : bool :=
+  match x with GSlice n _ | GMap n _ => n | _ => false end.
+
+(* the two slot lists ZipReduce folds over, when the shapes match *)
 Definition zip_children (x y : gval) : option (list gval * list gval) :=
   match x, y with
-  | GStructPtr fx, GStructPtr fy => if Nat.eqb (length fx) (length fy) then Some (fx, fy) else None
-  | GSlice _ ex, GSlice _ ey => if Nat.eqb (length ex) (length ey) then Some (ex, ey) else None
+  | GStructPtr fx, GStructPtr fy => if Nat.eqb (length fx) (length fy) then Some (map unwrap fx, map unwrap fy) else None
+  | GSlice _ ex, GSlice _ ey => if Nat.eqb (length ex) (length ey) then Some (map unwrap ex, map unwrap ey) else None
   | _, _ => None
   end.
 
-(* well-formed values: nil containers are empty, map keys are distinct, GPtr does not point to a struct
-   (that is GStructPtr) nor to an interface *)
+(* well-formed values: an interface slot holds a non-nil, non-interface dynamic value; nil containers are empty;
+   map keys are distinct; GPtr does not point to a struct (that is GStructPtr).  [wf_slot] is for fields / elements /
+   map values / pointees, [wfb] for the top-level value handed to reflecttools (never a GIface). *)
 Fixpoint nodupb (l : list N) : bool :=
   match l with
   | [] => true
   | k :: l' => negb (existsb (N.eqb k) l') && nodupb l'
   end.
 
-Fixpoint wfb (x : gval) : bool :=
+Fixpoint wf_slot (x : gval) : bool :=
   match x with
   | GNil | GNilPtr | GScalar _ _ => true
-  | GStructPtr fs | GStruct fs => forallb wfb fs
-  | GPtr v => match v with GStruct _ | GNil => false | _ => wfb v end
-  | GSlice n es => (if n then match es with [] => true | _ => false end else true) && forallb wfb es
+  | GIface v => match v with GNil | GIface _ => false | _ => wf_slot v end
+  | GStructPtr fs | GStruct fs => forallb wf_slot fs
+  | GPtr v => match v with GStruct _ => false | _ => wf_slot v end
+  | GSlice n es => (if n then match es with [] => true | _ => false end else true) && forallb wf_slot es
   | GMap n en => (if n then match en with [] => true | _ => false end else true)
-                 && nodupb (map fst en) && forallb (fun e => wfb (snd e)) en
+                 && nodupb (map fst en) && forallb (fun e => wf_slot (snd e)) en
   end.
+
+Definition wfb (x : gval) : bool := match x with GIface _ => false | _ => wf_slot x end.
 
 (* reflect.DeepEqual on values of one static type = structural equality of gvals whose map entries are
    listed in a canonical (sorted by key) order; executable version for the correspondence *)
@@ -252,6 +286,7 @@ Fixpoint gval_eqb (x y : gval) {struct x} : bool :=
     end in
   match x, y with
   | GNil, GNil | GNilPtr, GNilPtr => true
+  | GIface a, GIface b => gval_eqb a b
   | GStructPtr f1, GStructPtr f2 => list_eq f1 f2
   | GPtr a, GPtr b => gval_eqb a b
   | GStruct f1, GStruct f2 => list_eq f1 f2
